@@ -35,7 +35,7 @@ ANCHORS = [
     ("tangelo/toolboxes/ansatz_generator/ilc.py", "build_circuit,update_var_params", "ILC mapping cache"),
     ("tangelo/toolboxes/ansatz_generator/qmf.py", "build_circuit,update_var_params", "QMF positional update"),
 ]
-REQUIRED = {"update_equals_rebuild": 300, "wrong_length_rejected": 100, "zero_parameters_give_reference": 20}
+REQUIRED = {"live_observations_total": 10, "update_equals_rebuild": 300, "wrong_length_rejected": 100, "zero_parameters_give_reference": 20}
 BUDGET = {"quick": 300, "thorough": 3000}
 TOL = 1e-7
 
@@ -70,6 +70,7 @@ def cases(tier, seed):
                     reps = 1 if tier == "quick" else 2
                     for r in range(reps):
                         out.append({"sub": "history", "mol": mi, "kind": kind, "mapping": mp, "utd": utd, "rep": r})
+    out.append({"sub": "repo_tests", "tier": tier})
     return out
 
 
@@ -236,5 +237,19 @@ def run_history(case, ctx):
                       dict(base, max_diff=dz))
 
 
+def run_repo_tests(case, ctx):
+    """The repository's own ansatz / VQE tests as an additional workload: after (a sample of) the update_var_params calls made anywhere
+    in the library the circuit is compared with a fresh build_circuit of a deep copy of the ansatz (vlib.livemon, monitor C07)."""
+    from vlib.harness import repo_tests_case
+    repo_tests_case(case, ctx, ["tangelo/toolboxes/ansatz_generator/tests/test_uccsd.py", "tangelo/toolboxes/ansatz_generator/tests/test_upccgsd.py",
+                                "tangelo/toolboxes/ansatz_generator/tests/test_qcc.py", "tangelo/toolboxes/ansatz_generator/tests/test_hea.py",
+                                "tangelo/toolboxes/ansatz_generator/tests/test_vsqs.py", "tangelo/toolboxes/ansatz_generator/tests/test_rucc.py"],
+                    ["tangelo/toolboxes/ansatz_generator/tests", "tangelo/algorithms/variational/tests/test_vqe_solver.py",
+                     "tangelo/algorithms/variational/tests/test_adapt_vqe_solver.py"],
+                    only=("update_equals_rebuild_",), semantic=("C07",))
+
+
 def run_case(case, ctx):
+    if case["sub"] == "repo_tests":
+        return run_repo_tests(case, ctx)
     run_history(case, ctx)
